@@ -120,6 +120,23 @@ func c04Exec(op string) string {
 				notes = append(notes, "FORMATTED NewMapFormattedXmlSeq of the indented document differs from NewMapXmlSeq of the compact one")
 			}
 		}
+		if len(notes) == 0 && hashStr(op)%4 == 0 {
+			// the same round trip under another key prefix, after documents were encoded under the
+			// default one (the reserved keys follow the prefix in force)
+			for _, kp := range []string{"_", "%", "#"} {
+				mxj.SetGlobalKeyMapPrefix(kp)
+				m2, e2 := mxj.NewMapXmlSeq([]byte(doc), o.Cast)
+				if e2 != nil {
+					continue
+				}
+				x2, xe2 := m2.Xml()
+				if got, ok := tokenStream(x2); xe2 != nil || !ok || got != want {
+					notes = append(notes, fmt.Sprintf("KEYPREFIX under key prefix %q the compact round trip changes the token stream: %s", kp, clip(string(x2), 200)))
+					break
+				}
+			}
+			mxj.SetGlobalKeyMapPrefix("#")
+		}
 		if !o.Cast && !o.Snake && !o.EscDec && !o.KeepSpace && esc {
 			b, berr := mxj.BeautifyXml([]byte(doc), "", " ")
 			if berr != nil {
